@@ -99,3 +99,31 @@ func c02storeTree(f *c04fixture, nodes string) error {
 	f.trees[key] = c04tree{t, ns[0], member[0]}
 	return nil
 }
+
+// c02repeated builds (once) the shape of tree(root, k) in which the last child is hosted by the server of the
+// first child: two nodes of the tree have the same node id (ids derive from the server's key).
+func c02repeated(f *c04fixture, root bool, k int) c04tree {
+	key := fmt.Sprint("rep", root, k)
+	if t, ok := f.trees[key]; ok {
+		return t
+	}
+	parent := []int{-1}
+	member := []int{0}
+	first := 1
+	if !root {
+		parent = append(parent, 0)
+		member = append(member, 1)
+		first = 2
+	}
+	for i := 0; i < k-1; i++ {
+		parent = append(parent, first-1)
+		member = append(member, first+i)
+	}
+	parent = append(parent, first-1)
+	member = append(member, first)
+	t, nodes := fix.BuildTree(f.roster(k+2), parent, member)
+	ct := c04tree{t, nodes[first-1], first - 1}
+	f.cl.Overlay(ct.srv).RegisterTree(ct.t)
+	f.trees[key] = ct
+	return ct
+}
